@@ -41,6 +41,16 @@ def _append(x, attr, y):
     return (f"{x}.{attr}.append({y})", fn)
 
 
+def _append_exclusive(x, attr, y):
+    """unidirectional one-to-many: an object belongs to at most one collection (nothing would take it out of the other one)"""
+    def fn(e, s):
+        for k, o in e.items():
+            if not k.startswith("_") and type(o) is type(e[x]) and e[y] in o.__dict__.get(attr, ()):
+                raise Skip("already a member of a loaded collection")
+        getattr(e[x], attr).append(e[y])
+    return (f"{x}.{attr}.append({y})", fn)
+
+
 def _remove(x, attr, y):
     def fn(e, s):
         getattr(e[x], attr).remove(e[y])     # ValueError when absent -> not applicable
@@ -108,6 +118,13 @@ def generic_unsat(env, s):
         if k.startswith("_"):
             continue
         st = inspect(o)
+        if st.transient:
+            for rel in st.mapper.relationships:
+                v = st.dict.get(rel.key)
+                for x in ([] if v is None else (list(v) if rel.uselist else [v])):
+                    if live(x):
+                        return f"{names.get(id(x))} was attached to {k}.{rel.key} but {k} never entered the session (the link can not be persisted)"
+            continue
         for rel in st.mapper.relationships:
             if rel.key not in st.dict and rel.key not in getattr(st, "_pending_mutations", {}):
                 continue
@@ -298,7 +315,7 @@ def _world_selfref(cascade):
         for b in ("i0", "i2"):
             ops.append(_remove(a, "items", b))
     for a in ("n1", "n3", "n4"):
-        ops.append(_append(a, "items", "i3"))
+        ops.append(_append_exclusive(a, "items", "i3"))
     ops += [_move("n1", "items", "i0", "n0"), _move("n1", "items", "i0", "n4"), _move("n0", "items", "i2", "n2"), _move("n2", "items", "i0", "n1")]
     for a in ("n0", "n1", "n2"):
         for b in ("t0", "t1"):
@@ -705,6 +722,10 @@ def graph_vs_db(w, env, db):
                 v = inspect(o).dict.get(rel.key)
                 if rel.direction is MANYTOONE and v is not None and inspect(v).transient:
                     unlinked.add(k)
+                if v is not None and rel.direction is not MANYTOONE and (inspect(o).transient or inspect(o).deleted or inspect(o).detached):
+                    # attached to an object that never entered the session, or that this very flush deleted (possibly by cascade)
+                    for x in (list(v) if rel.uselist else [v]):
+                        unlinked.add(names.get(id(x)))
 
     def rowof(o, table):
         st = inspect(o)
